@@ -419,9 +419,20 @@ def r3(rr, repo):
     rr.floor('paths of exit()', n, 2, m.mod, m.exit)
 
 
-@rule('C08.R4', 'loop_once polls the stop event in both wait loops and tests the exit_after deadline on every normal path to its end')
+@rule('C08.R4', 'loop_once polls the stop event in both wait loops and tests the exit_after deadline on every normal path to its end; an iteration that ends in an error the main loop only logs (LOOP_EXC off) '
+                'tests the deadline in that handler')
 def r4(rr, repo):
     mod, fn = repo.find(f'{FILTER}::Filter.loop_once')
+    # the handler of the main loop that logs an error and carries on: loop_once() did not reach its own deadline test, so the handler has to make it
+    _, runfn = repo.find(f'{FILTER}::Filter.run')
+    hs = [h for t in ast.walk(runfn) if isinstance(t, ast.Try) and any(isinstance(c, ast.Call) and U(c.func).endswith('.loop_once') for st_ in t.body for c in ast.walk(st_)) for h in t.handlers
+          if h.type is not None and U(h.type) == 'loop_exc']
+    rr.floor('handlers of the main loop that log an error and carry on', len(hs), 1, mod, runfn)
+    for h in hs:
+        cmps = [c for c in ast.walk(h) if isinstance(c, ast.Compare) and 'exit_after_t' in U(c) and any(isinstance(x, ast.Call) and U(x.func) in ('time.time', 'time') for x in ast.walk(c))]
+        exits = [c for c in q.calls_in(h) if U(c.func).endswith('.exit') and c.args and q.const_str(c.args[0]) == 'exit_after']
+        rr.ob('the handler that logs a loop error and carries on tests the exit_after deadline (a filter whose process() raises on every call would otherwise never reach it)', bool(cmps) and bool(exits), mod, h,
+              witness=f'deadline comparisons in the handler: {len(cmps)}; exit(\'exit_after\') calls: {len(exits)}', key='deadline-in-loop-error-handler')
     q.expect_locals(mod, fn, ['self'])
     exit_ref = ('repo', f'{FILTER}::Filter.Exit')
 
